@@ -213,7 +213,8 @@ def runCase {T G M : Type} (I : TItem T Int G M Int) (io : ItemIO G M)
             answer3 (v ++ " / " ++ raw) (v ++ " / " ++ view) (if inDom then m ++ " / " ++ spec else "any")
         else answer v m
 
-/-- `big` stream: only the element count is modelled. -/
+/-- `big` stream: only the element count is modelled (`rr k c`: k treaps of c elements concatenated behind the
+    main one; `thin s c`: c appends; `keep s`: every s-th element stays; `strides S L`: the main treap is not touched). -/
 def bigStep (n : Nat) (toks : List String) : Option Nat :=
   match toks with
   | [op, c] =>
@@ -223,15 +224,24 @@ def bigStep (n : Nat) (toks : List String) : Option Nat :=
       if op = "append" ∨ op = "front" ∨ op = "alt" ∨ op = "mid" ∨ op = "singles" ∨ op = "fromitem" ∨ op = "scratch"
       then some (n + c)
       else if op = "burn" then some n
+      else if op = "keep" then (if c = 0 then none else some (n / c))
       else none
-  | [op, c, _seed] =>
+  | [op, c, seed] =>
     match parseNat? c with
     | none => none
     | some c =>
       if op = "rand" then some (n + c)
       else if op = "rot" ∨ op = "pieces" then some n
       else if op = "del" then some (n - c)
-      else none
+      else
+        -- the second number of these is a count, not a seed
+        match parseNat? seed with
+        | none => none
+        | some d =>
+          if op = "rr" then some (n + c * d)
+          else if op = "thin" then some (n + d)
+          else if op = "strides" then (if c = 0 ∨ d = 0 ∨ c * d > 64000000 then none else some n)
+          else none
   | _ => none
 
 def runBig : Nat → List String → Option (List String)
